@@ -33,6 +33,28 @@ func main() {
 		cmdReplay(os.Args[2:])
 	case "selftest":
 		cmdSelftest(os.Args[2:])
+	case "closures":
+		c, err := loadCtx("/repo", nil)
+		if err != nil {
+			fmt.Println(err)
+			os.Exit(2)
+		}
+		var keys []string
+		for k, fi := range c.funcs {
+			if fi.Lit != nil && (len(os.Args) < 3 || strings.Contains(k, os.Args[2])) {
+				keys = append(keys, k)
+			}
+		}
+		sort.Strings(keys)
+		for _, k := range keys {
+			fi := c.funcs[k]
+			pos := c.fset.Position(fi.Lit.Pos())
+			par := ""
+			if fi.Parent != nil && fi.Parent.Lit != nil {
+				par = " (in " + fi.Parent.Name + ")"
+			}
+			fmt.Printf("%s  %s:%d%s\n", fi.Name, shortFile(pos.Filename), pos.Line, par)
+		}
 	default:
 		usage()
 	}
